@@ -237,6 +237,58 @@ def rare_values(ctx, rng, curve):
                                   f"{'rejects: ' + repr(o.exc) if not o.ok else 'returns another plaintext'}", {"dir": "B-rare", "enc": enc, "alg": alg, "token": tok, "key": k2})
 
 
+def foreign_but_legal(ctx, rng):
+    """what other implementations legally send: an "epk" that carries kid / use / alg / a private extension beside its public members (it is a JWK), and
+    peers that keep one PBES2 salt for several algorithms (same password, p2s and p2c under PBES2-HS256 / 384 / 512 one after another, in every order)"""
+    from refjose import jwe as rjwe
+    from refjose.keys import RefKey
+    j = J.load()
+    J.register_drafts()
+    pt = b"c08 foreign but legal"
+    extras = [{"kid": "ephemeral-1"}, {"use": "enc"}, {"alg": "ECDH-ES"}, {"ext": True}, {"kid": "e", "use": "enc", "alg": "ECDH-ES+A128KW", "x-note": "hi"}]
+    for ai, (alg, enc) in enumerate((("ECDH-ES", "A128GCM"), ("ECDH-ES+A128KW", "A256CBC-HS512"), ("ECDH-ES+A256KW", "A192GCM"), ("ECDH-1PU", "A256GCM"), ("ECDH-1PU+A128KW", "A128CBC-HS256"))):
+        for ci, curve in enumerate(g.ECDH_CURVES):
+            extra = extras[(ai + ci) % len(extras)]
+            for form in ("compact", "flattened", "general"):
+                ctx.ev()
+                rk, sk = g.keys_for(alg, enc, curve)
+                b = g.make(form, enc, [(alg, rk, sk)], pt, epk_extra=extra, params_in="protected" if form == "compact" or (ai + ci) % 2 else "recipient",
+                           alg_in="protected" if form != "general" else "recipient")
+                dec = j.jwe.decrypt_compact if form == "compact" else j.jwe.decrypt_json
+                o = call(dec, copy.deepcopy(b.token), j.key(rk), algorithms=[alg, enc], sender_key=j.key(gen.public_jwk(sk)) if sk else None)
+                ctx.count("b_checked")
+                ctx.count("foreign_but_legal")
+                ctx.nontrivial(("epk-extra", alg, curve, form, tuple(extra)))
+                ctx.cell("B-foreign", "epk-with-extra-members", alg, form)
+                if not o.ok or o.value.plaintext != pt:
+                    ctx.violation(f"foreign-rejected:epk-with-extra-members:{'+'.join(sorted(extra))}", f"{alg} on {curve} ({form}) with an epk that also carries {extra}: joserfc "
+                                  f"{'rejects: ' + repr(o.exc) if not o.ok else 'returns another plaintext'}", {"dir": "B-foreign", "foreign_but_legal": True, "alg": alg, "token": b.token, "key": rk})
+    import itertools
+    pw = gen.new_oct(256)
+    names = [("PBES2-HS256+A128KW", "A128GCM"), ("PBES2-HS384+A192KW", "A128CBC-HS256"), ("PBES2-HS512+A256KW", "A256GCM")]
+    for p2s_raw, p2c in ((b"one salt for all", 1000), (b"\x00" * 8, 1200)):
+        p2s = b64u_enc(p2s_raw)
+        toks = {alg: g.make("compact", enc, [(alg, pw, None)], pt, extra_protected={"p2s": p2s, "p2c": p2c}).token for alg, enc in names}
+        for order in itertools.permutations(names):
+            for alg, enc in order + order:
+                ctx.ev()
+                o = call(j.jwe.decrypt_compact, toks[alg], j.key(pw), algorithms=[alg, enc])
+                ctx.count("b_checked")
+                ctx.count("foreign_but_legal")
+                ctx.nontrivial(("pbes2-one-salt", alg, tuple(a for a, _ in order)))
+                if not o.ok or o.value.plaintext != pt:
+                    ctx.violation("foreign-rejected:pbes2-one-salt-for-several-algorithms", f"{alg} token after tokens of {[a for a, _ in order]} with the same password, p2s and p2c: "
+                                  f"{o.exc!r}", {"dir": "B-foreign", "foreign_but_legal": True, "alg": alg, "token": toks[alg], "key": pw})
+                # and the producing side with the salt pinned by the caller
+                e = call(j.jwe.encrypt_compact, {"alg": alg, "enc": enc, "p2s": p2s, "p2c": p2c}, pt, j.key(pw), algorithms=[alg, enc])
+                if e.ok:
+                    r = rjwe.decrypt(e.value, RefKey.from_jwk(pw), disjoint=True)
+                    ctx.count("a_checked")
+                    if r.verdict != "ACCEPT" or r.payload != pt:
+                        ctx.violation("ref-rejects:pbes2-one-salt-for-several-algorithms", f"{alg} token made by joserfc with a pinned p2s after other PBES2 algorithms with the same "
+                                      f"password and salt: reference: {r.reason}", {"dir": "A-foreign", "foreign_but_legal": True, "alg": alg, "token": e.value, "key": pw})
+
+
 def run_shard(ctx):
     sc = selfcheck.run()
     if sc["failed"]:
@@ -248,6 +300,8 @@ def run_shard(ctx):
     rng = ctx.rng
     if ctx.shard == 0:
         direction_c(ctx)
+    if ctx.shard == 13:
+        foreign_but_legal(ctx, rng)
     if 7 <= ctx.shard <= 12:
         rare_values(ctx, rng, g.ECDH_CURVES[ctx.shard - 7])
     if ctx.shard == 6:
@@ -312,7 +366,9 @@ REQUIRE = [("b_long_distance_plaintexts", 8, "refjose-built tokens whose DEFLATE
 
 def replay(ctx, case):
     J.load()
-    if case.get("dir") == "B":
+    if case.get("foreign_but_legal"):
+        foreign_but_legal(ctx, ctx.rng)
+    elif case.get("dir") == "B":
         for _ in range(5):
             direction_b(ctx, case["alg"], case["enc"], case["form"], case["style"], ctx.rng, case.get("zip", "none"), case.get("n", 1))
     elif case.get("dir") == "C":
